@@ -196,6 +196,28 @@ func execOp(line string) (res string) {
 		}
 		priv, pub := bec.PrivKeyFromBytes(curve, B(0))
 		return "ok " + hx(priv.Serialise()) + " " + ptStr(pub.X, pub.Y)
+	case "impl.add":
+		return execOp("curve.add " + strings.Join(a, " "))
+	case "impl.double":
+		return execOp("curve.double " + strings.Join(a, " "))
+	case "impl.smul":
+		return execOp("curve.smul " + strings.Join(a, " "))
+	case "impl.sbmul":
+		return execOp("curve.sbmul " + strings.Join(a, " "))
+	case "impl.oncurve":
+		return execOp("curve.oncurve " + strings.Join(a, " "))
+	case "impl.splitk":
+		if !argc(1) {
+			return bad
+		}
+		k1, k2, s1, s2 := bec.VerifSplitK(B(0))
+		return "ok " + hx(k1) + " " + hx(k2) + " " + strconv.Itoa(s1) + " " + strconv.Itoa(s2)
+	case "impl.naf":
+		if !argc(1) {
+			return bad
+		}
+		p, n := bec.VerifNAF(B(0))
+		return "ok " + hx(p) + " " + hx(n)
 	case "curve.add":
 		if !argc(4) {
 			return bad
@@ -274,11 +296,10 @@ func execOp(line string) (res string) {
 		if !argc(4) {
 			return bad
 		}
-		tp, ok := parseTape(a[3])
+		t, ok := replayTape(a[3])
 		if !ok {
 			return bad
 		}
-		t := &tapeReader{isReplay: true, replay: tp}
 		var out []byte
 		var err error
 		withTape(t, func() { out, err = bec.Encrypt(pubOf(Nn(0), Nn(1)), B(2)) })
@@ -308,11 +329,10 @@ func execOp(line string) (res string) {
 		if err != nil {
 			return bad
 		}
-		tp, ok := parseTape(a[2])
+		t, ok := replayTape(a[2])
 		if !ok {
 			return bad
 		}
-		t := &tapeReader{isReplay: true, replay: tp}
 		var out []byte
 		withTape(t, func() { out, err = crypto.Encrypt(blk, B(1)) })
 		if t.mismatch {
@@ -393,11 +413,10 @@ func execOp(line string) (res string) {
 		if !argc(2) {
 			return bad
 		}
-		tp, ok := parseTape(a[1])
+		t, ok := replayTape(a[1])
 		if !ok {
 			return bad
 		}
-		t := &tapeReader{isReplay: true, replay: tp}
 		var e *envelope.JSONEnvelope
 		var err error
 		pl := B(0)
@@ -434,11 +453,10 @@ func execOp(line string) (res string) {
 		if !argc(1) {
 			return bad
 		}
-		tp, ok := parseTape(a[0])
+		t, ok := replayTape(a[0])
 		if !ok {
 			return bad
 		}
-		t := &tapeReader{isReplay: true, replay: tp}
 		var k *bec.PrivateKey
 		var err error
 		withTape(t, func() { k, err = bec.NewPrivateKey(curve) })
@@ -453,11 +471,10 @@ func execOp(line string) (res string) {
 		if !argc(2) {
 			return bad
 		}
-		tp, ok := parseTape(a[1])
+		t, ok := replayTape(a[1])
 		if !ok {
 			return bad
 		}
-		t := &tapeReader{isReplay: true, replay: tp}
 		var out []byte
 		var err error
 		n := I(0)
